@@ -27,7 +27,10 @@ ATTACH = {
     'lib_probes.rs': 'mla/src/lib.rs',
     'ecc_probes.rs': 'mla/src/crypto/ecc.rs',
     'helpers_probes.rs': 'mla/src/helpers.rs',
+    'capi_probes.rs': 'bindings/C/src/lib.rs',
 }
+# cargo package that holds each attach file (default: mla)
+PACKAGE = {'bindings/C/src/lib.rs': 'mla-bindings-c'}
 
 
 def index():
@@ -73,7 +76,8 @@ def run_probe(tests, keep=False):
         failed = []
         build_err = None
         for t in tests:
-            cmd = ['cargo', 'test', '--offline', '-p', 'mla', '--lib', '--', '--exact', t, '--test-threads', '1']
+            pkg = 'mla-bindings-c' if 'capi_probes' in t else 'mla'
+            cmd = ['cargo', 'test', '--offline', '-p', pkg, '--lib', '--', '--exact', t, '--test-threads', '1']
             p = subprocess.run(cmd, cwd=SCRATCH, env=env, capture_output=True, text=True, timeout=3000)
             out = p.stdout[-6000:]
             if 'error: could not compile' in p.stderr or 'error[E' in p.stderr:
@@ -81,6 +85,10 @@ def run_probe(tests, keep=False):
                 results[t] = {'status': 'build-error', 'output': build_err}
                 break
             m = re.search(r'test result: (\w+)\. (\d+) passed; (\d+) failed', p.stdout)
+            if not m and ('signal: 11' in p.stderr or 'SIGSEGV' in p.stderr or 'signal: 6' in p.stderr or 'SIGABRT' in p.stderr):
+                results[t] = {'status': 'FAILED', 'output': 'the test process CRASHED: ' + p.stderr[-600:]}
+                failed.append(t)
+                continue
             if not m or int(m.group(2)) + int(m.group(3)) == 0:
                 results[t] = {'status': 'not-run', 'output': out}
                 continue
